@@ -1,39 +1,42 @@
 /*VERIF
-{ "tu": "src/shims/lock.c", "enforce": "_dispatch_sema4_timedwait", "props": ["C08"], "seq": true, "timeout": 200,
+{ "tu": "src/shims/lock.c", "enforce": "_dispatch_sema4_timedwait", "props": ["C08", "C12"], "seq": true, "timeout": 200, "deciding": ["postcondition", "assertion", "precondition", "loop"],
   "stub_note": "sem_timedwait (kernel): returns an arbitrary result/errno; _dispatch_time_nanoseconds_since_epoch: own contract in C12",
   "assumes": ["UNDECIDED clause: timespec handed to sem_timedwait == deadline / 10^9, deadline % 10^9 (64-bit division, solver limit)", "do-while retry loop closed by a loop contract (no termination claim)"] }
 VERIF*/
 #ifdef VERIF_PRE
-extern int H_errno, H_last_ret, H_last_errno; extern unsigned long long H_deadline_ns; extern _Bool H_ts_ok;
+extern int H_errno, H_last_ret, H_last_errno; extern unsigned long long H_deadline_ns, H_epoch_calls, H_waits, H_timeout0; extern _Bool H_ts_ok, H_bad;
 #else
 int H_errno; int *__errno_location(void) { return &H_errno; }
-int H_last_ret, H_last_errno; unsigned long long H_deadline_ns; _Bool H_ts_ok; sem_t H_sem;
-uint64_t _dispatch_time_nanoseconds_since_epoch(dispatch_time_t when) { (void)when; H_deadline_ns = ND(uint64_t); return H_deadline_ns; }
+int H_last_ret, H_last_errno; unsigned long long H_deadline_ns, H_epoch_calls, H_waits, H_timeout0; _Bool H_ts_ok, H_bad; sem_t H_sem;
+uint64_t _dispatch_time_nanoseconds_since_epoch(dispatch_time_t when) { if (when != H_timeout0 || H_epoch_calls != H_waits) H_bad = 1; __CPROVER_assume(H_epoch_calls < (1ull << 62)); H_epoch_calls++; H_deadline_ns = ND(uint64_t); return H_deadline_ns; }
 int sem_timedwait(sem_t *sem, const struct timespec *ts)
 {
 	/* (that the timespec is the computed deadline split by 10^9 is NOT decided: 64-bit division facts
 	 * do not discharge on any installed back end, measured > 200 s) */
 	H_ts_ok = (sem == &H_sem) && ts != 0;
+	/* C12: the absolute deadline of EVERY kernel wait comes from the time module's conversion of the caller's dispatch_time_t (which knows the three clocks) */
+	if (H_epoch_calls != H_waits + 1) H_bad = 1; H_waits++;
 	H_last_ret = ND_BOOL() ? 0 : -1;
 	int e = ND(int); __CPROVER_assume(e == EINTR || e == ETIMEDOUT);  /* the errors sem_timedwait can report for a valid semaphore/timespec */
 	H_last_errno = e; if (H_last_ret == -1) H_errno = e;
 	return H_last_ret;
 }
 VERIF_LOOP_CONTRACT(_dispatch_sema4_timedwait, 0,
-	__CPROVER_assigns(_timeout, ret, H_errno, H_last_ret, H_last_errno, H_deadline_ns, H_ts_ok, VERIF_GHOST)
-	__CPROVER_loop_invariant(1))
+	__CPROVER_assigns(_timeout, ret, H_errno, H_last_ret, H_last_errno, H_deadline_ns, H_ts_ok, H_epoch_calls, H_waits, H_bad, VERIF_GHOST)
+	__CPROVER_loop_invariant(!H_bad && H_epoch_calls == H_waits))
 VERIF_CONTRACT(bool, _dispatch_sema4_timedwait, (_dispatch_sema4_t *sema, dispatch_time_t timeout),
-  REQ(sema == &H_sem)
-  ASG(H_errno, H_last_ret, H_last_errno, H_deadline_ns, H_ts_ok, VERIF_GHOST)
+  REQ(sema == &H_sem && timeout == H_timeout0 && H_epoch_calls == 0 && H_waits == 0 && !H_bad)
+  ASG(H_errno, H_last_ret, H_last_errno, H_deadline_ns, H_ts_ok, H_epoch_calls, H_waits, H_bad, VERIF_GHOST)
   /* "timed out" is reported only when the kernel wait itself timed out: an interrupted wait is retried */
   ENS(timeout_only_when_the_kernel_wait_timed_out, VIMPL(__CPROVER_return_value, H_last_ret == -1 && H_last_errno == ETIMEDOUT))
   ENS(success_only_when_the_kernel_wait_succeeded, VIMPL(!__CPROVER_return_value, H_last_ret == 0))
   ENS(waits_on_the_given_kernel_semaphore, H_ts_ok)
+  ENS(every_kernel_wait_gets_the_deadline_the_time_module_computes_for_the_callers_timeout, !H_bad && H_waits >= 1 && H_epoch_calls == H_waits)
 )
 void harness(void)
 {
 	VERIF_GHOST_RESET();
-	dispatch_time_t t = ND(dispatch_time_t);
+	dispatch_time_t t = ND(dispatch_time_t); H_timeout0 = t; H_epoch_calls = 0; H_waits = 0; H_bad = 0;
 	bool r = _dispatch_sema4_timedwait(&H_sem, t);
 	VERIF_POST(_dispatch_sema4_timedwait, r, &H_sem, t);
 	VERIF_CANARY();
